@@ -10,6 +10,7 @@ from vh_refsem import ref_deserialize, same_obj
 
 def hostile(types, desc, n, entry_chunked, cap):
     set_range_cap(cap)
+    set_loop_bound(n + cap + 8)      # every loop of a deserializer consumes input or counts up to a decoded (capped) count
     cls = load_class(desc["module"], desc["name"])
     data = sym_bytes("data", n)
     r = EoReader(data)
